@@ -550,6 +550,14 @@ func (e *Env) call(n *ECall) EVal {
 			x.T = SArr(x.T)
 		}
 		return EVal{T: And(Lt(TZero, x.T), Le(x.T, e.heap("$brk", SInt))), Ty: boolT}
+	case "tail":
+		// tail(s, k): the slice s[k:]
+		x, k := e.eval(n.Args[0]), e.eval(n.Args[1])
+		return EVal{T: MkSlice(SArr(x.T), mk(SInt, "+", SOff(x.T), k.T), mk(SInt, "-", SLen(x.T), k.T), mk(SInt, "-", SCap(x.T), k.T)), Ty: x.Ty}
+	case "closed":
+		// closed(ch): channel ch has been observed closed (a receive returned ok == false)
+		x := e.eval(n.Args[0])
+		return EVal{T: Select(e.s.H(e.st, "G_$chanClosed", ArrSort(SInt, SBool)), x.T), Ty: boolT}
 	case "seqeq":
 		// two slices hold the same sequence
 		a, b := e.eval(n.Args[0]), e.eval(n.Args[1])
